@@ -518,21 +518,34 @@ func luaCellObligations(base string, r emitRun) []emitObl {
 				note(k, a.Issues[k])
 			}
 			note("width", luaWidthIssues(a, r.cell, cb, "in.f.Name", "in.f.Length"))
+			if r.cell.Kind == "inline" && r.entry.Dir == "dec" {
+				// the dissector of an inline packet is emitted by the same call (in the sub dissector the
+				// recursive call is summarised, its text is not visible): it must precede its use
+				for _, d := range a.Issues["defined"] {
+					if strings.Contains(d, "in.inl.Name") {
+						note("inline-defined", []string{d})
+					}
+				}
+			}
 			if r.entry.Dir == "sub" {
 				note("returns", luaReturnsIssues(text))
 			}
 		}
 	}
 	desc := map[string]string{
-		"advance": "every read buf(offset, W) of a step is followed by offset = offset + W with the same W",
-		"nested":  "the offset returned by a nested dissector is assigned to offset",
-		"scope":   "every variable a step uses is a parameter or a local of the emitted function",
-		"width":   "the displayed width is the wire size of the declared type; prefixes are fetched with the size and accessor of the configured prefix type and byte order",
-		"returns": "the emitted sub dissector returns the offset it reached",
+		"advance":        "every read buf(offset, W) of a step is followed by offset = offset + W with the same W",
+		"nested":         "the offset returned by a nested dissector is assigned to offset",
+		"scope":          "every variable a step uses is a parameter or a local of the emitted function",
+		"width":          "the displayed width is the wire size of the declared type; prefixes are fetched with the size and accessor of the configured prefix type and byte order",
+		"returns":        "the emitted sub dissector returns the offset it reached",
+		"inline-defined": "the `local function` of an inline packet's dissector precedes, in the emitted text, every call of it",
 	}
 	kinds := []string{"advance", "nested", "scope", "width"}
 	if r.entry.Dir == "sub" {
 		kinds = append(kinds, "returns")
+	}
+	if r.cell.Kind == "inline" && r.entry.Dir == "dec" {
+		kinds = append(kinds, "inline-defined")
 	}
 	var out []emitObl
 	if feasible == 0 {
